@@ -2517,35 +2517,32 @@ func genGlobalVarDecl(nodes []*node, sc *scope) (*node, error) {
 		deps[n] = getVarDependencies(n, sc)
 	}
 
+	// Repeatedly select the earliest variable in declaration order which is ready for
+	// initialization, i.e. which has no dependency on an uninitialized variable.
 	inited := map[*node]bool{}
-	revisit := []*node{}
-	for {
-		for _, n := range nodes {
+	pending := append([]*node{}, nodes...)
+	for len(pending) > 0 {
+		next := -1
+		for i, n := range pending {
 			canInit := true
 			for _, d := range deps[n] {
 				if !inited[d] {
 					canInit = false
 				}
 			}
-			if !canInit {
-				revisit = append(revisit, n)
-				continue
+			if canInit {
+				next = i
+				break
 			}
-
-			varNode.child = append(varNode.child, n)
-			inited[n] = true
+		}
+		if next < 0 {
+			return nil, pending[0].cfgErrorf("variable definition loop")
 		}
 
-		if len(revisit) == 0 || equalNodes(nodes, revisit) {
-			break
-		}
-
-		nodes = revisit
-		revisit = []*node{}
-	}
-
-	if len(revisit) > 0 {
-		return nil, revisit[0].cfgErrorf("variable definition loop")
+		n := pending[next]
+		varNode.child = append(varNode.child, n)
+		inited[n] = true
+		pending = append(pending[:next], pending[next+1:]...)
 	}
 	wireChild(varNode)
 	return varNode, nil
